@@ -78,7 +78,9 @@ def cross_monitor(cases, impl, model, stats):
             stats["fuel"] += 1
             continue
         got = transcript.canon_run(run_part(impl[i], c.meta[2]))
-        if got.endswith("H:FUEL"):
+        if got.endswith("H:FUEL") and not c.tag.endswith("-q5000"):
+            # with a small quantum the cap on execute calls can be reached by a terminating program;
+            # non-termination is judged on the large-quantum run of the same program
             stats["fuel"] += 1
             continue
         stats["compared"] += 1
